@@ -816,13 +816,16 @@ def _n6_function(ctx, f):
     if not _events(ex, "get_clone_table") or not writes or not csvs:
         raise AnalysisError("%s: expected get_clone_table, to_csv and print_string_to_file calls (found %d / %d / %d)" % (f.qualname, len(_events(ex, "get_clone_table")), len(csvs), len(writes)))
     text_trees = set()
+    table_trees = set()
+    ok, why = True, ""
     for wv in writes:
         a = _atom(vkey(wv.args[0])) if wv.args else None
         if a is None or a[0] != "mcall" or a[1] != "to_newick_string":
-            raise AnalysisError("%s: the text written by print_string_to_file is %s, not <tree>.to_newick_string()" % (f.qualname, show(wv.args[0])[:120] if wv.args else "?"))
+            # some other text (e.g. a Newick string recorded for a different visit of the topology): it is not
+            # derived from the tree object the table is computed from
+            ok, why = False, "the text written as the tree file is %s, not the Newick string of the tree the table is built from (<tree>.to_newick_string())" % (show(wv.args[0])[:160] if wv.args else "?")
+            continue
         text_trees.add(_base_key(a[2]))
-    table_trees = set()
-    ok, why = True, ""
     for c in csvs:
         srcs = [t for t in atoms_of(c.recv, tag="call") if t[1].split(".")[-1] == "get_clone_table"]
         if not srcs:
@@ -911,6 +914,15 @@ def run(ctx):
     rule_N3_N4(ctx)
     rule_N5(ctx)
     rule_N6(ctx)
+    # the ccf / clonal_prev columns are the MAP assignment's: its traceback and output formulas (C10.X4, X5)
+    from . import C10
+
+    from ..formula import imported
+
+    ctx._own_rules = set(ctx.rule_min)
+    info = {}
+    for r in (C10.rule_X1, C10.rule_X2, C10.rule_X3, C10.rule_X4, C10.rule_X5):
+        imported(ctx, r, info)
 
 
 # ----------------------------------------------------------------------------- self-test catalogue
